@@ -15,6 +15,7 @@ import (
 type gor struct {
 	state  string   // wait reason without the duration suffix
 	frames []string // function names, innermost first
+	where  []string // "file:line" of each frame
 }
 
 var gorHdr = regexp.MustCompile(`^goroutine \d+ \[([^\],]+)(?:, [^\]]*)?\]:$`)
@@ -35,6 +36,14 @@ func snapshot() []gor {
 		if m := gorHdr.FindStringSubmatch(l); m != nil {
 			out = append(out, gor{state: m[1]})
 			cur = &out[len(out)-1]
+			continue
+		}
+		if cur != nil && l != "" && l[0] == '\t' && len(cur.where) < len(cur.frames) {
+			loc := strings.TrimSpace(l)
+			if i := strings.Index(loc, " "); i > 0 {
+				loc = loc[:i]
+			}
+			cur.where = append(cur.where, loc)
 			continue
 		}
 		if cur == nil || l == "" || l[0] == '\t' || strings.HasPrefix(l, "created by ") {
@@ -61,6 +70,59 @@ func (g gor) topIn(pkg string) string {
 	for _, f := range g.frames {
 		if strings.Contains(f, pkg) {
 			return f
+		}
+	}
+	return ""
+}
+
+var srcCache = map[string][]string{}
+
+// selectMentions reports whether the select statement at file:line (the statement a goroutine in
+// state "select" is blocked in) mentions ident in one of its cases. The source is read from the
+// path in the stack trace, i.e. from the tree the binary was built from.
+func selectMentions(loc string, ident string) bool {
+	i := strings.LastIndex(loc, ":")
+	if i < 0 {
+		return false
+	}
+	file := loc[:i]
+	var line int
+	fmt.Sscanf(loc[i+1:], "%d", &line)
+	src, ok := srcCache[file]
+	if !ok {
+		data, err := os.ReadFile(file)
+		if err != nil {
+			return false
+		}
+		src = strings.Split(string(data), "\n")
+		srcCache[file] = src
+	}
+	depth, started := 0, false
+	for k := line - 1; k >= 0 && k < len(src); k++ {
+		l := src[k]
+		if strings.Contains(l, ident) && started {
+			return true
+		}
+		for _, c := range l {
+			if c == '{' {
+				depth++
+				started = true
+			} else if c == '}' {
+				depth--
+			}
+		}
+		if started && depth <= 0 {
+			return false
+		}
+	}
+	return false
+}
+
+// whereOf returns the file:line of the innermost frame whose function name contains sub.
+func (g gor) whereOf(sub string) string {
+	for i, f := range g.frames {
+		if strings.Contains(f, sub) && i < len(g.where) {
+			return g.where[i]
 		}
 	}
 	return ""
@@ -124,83 +186,107 @@ var crashNorm = regexp.MustCompile(`0x[0-9a-f]+|goroutine \d+`)
 // (`tvharness execcase <component>`), so that a panic in a library goroutine is observed as
 // `crash:<first line of stderr>` on the op lines that got no answer.
 func runIsolated(component string, x *execCtx, perCaseTimeout time.Duration) {
-	var cur []string
-	flush := func() {
-		if len(cur) == 0 {
-			return
-		}
-		cmd := exec.Command(os.Args[0], "execcase", component)
-		cmd.Stdin = strings.NewReader(strings.Join(cur, "\n") + "\n")
-		var so, se strings.Builder
-		cmd.Stdout, cmd.Stderr = &so, &se
-		cmd.Env = os.Environ()
-		done := make(chan error, 1)
-		_ = cmd.Start()
-		go func() { done <- cmd.Wait() }()
-		var err error
-		timedOut := false
-		select {
-		case err = <-done:
-		case <-time.After(perCaseTimeout):
-			_ = cmd.Process.Kill()
-			err = <-done
-			timedOut = true
-		}
-		lines := strings.Split(strings.TrimRight(so.String(), "\n"), "\n")
-		answered := 0
-		for _, l := range lines {
-			if l == "" {
-				continue
-			}
-			fmt.Fprintln(x.w, l)
-			if strings.Contains(l, " => ") {
-				answered++
-			}
-		}
-		if err != nil || timedOut {
-			reason := "crash:exit"
-			if timedOut {
-				reason = "hang:watchdog"
-			} else {
-				for _, l := range strings.Split(se.String(), "\n") {
-					if strings.HasPrefix(l, "panic:") || strings.HasPrefix(l, "fatal error:") {
-						reason = "crash:" + strings.ReplaceAll(crashNorm.ReplaceAllString(l, "X"), " ", "_")
-						break
-					}
-				}
-				// which library function was on the crashing goroutine's stack
-				for _, l := range strings.Split(se.String(), "\n") {
-					if strings.Contains(l, "toolchest/") && strings.Contains(l, "(") && !strings.HasPrefix(l, "\t") {
-						fn := l[strings.LastIndex(l, "/")+1:]
-						if i := strings.LastIndex(fn, "("); i > 0 {
-							fn = fn[:i]
-						}
-						reason += "@" + fn
-						break
-					}
-				}
-			}
-			ops := 0
-			for _, l := range cur {
-				if strings.HasPrefix(l, "case ") {
-					continue
-				}
-				if ops >= answered {
-					fmt.Fprintf(x.w, "%s => %s\n", l, reason)
-				}
-				ops++
-			}
-		}
-		cur = nil
-	}
+	var cases [][]string
 	for x.in.Scan() {
 		line := x.in.Text()
 		if strings.HasPrefix(line, "case ") {
-			flush()
+			cases = append(cases, nil)
 		}
-		if line != "" {
-			cur = append(cur, line)
+		if line != "" && len(cases) > 0 {
+			cases[len(cases)-1] = append(cases[len(cases)-1], line)
 		}
 	}
-	flush()
+	results := make([]string, len(cases))
+	par := runtime.NumCPU() / 2
+	if v := os.Getenv("TV_PAR"); v != "" {
+		fmt.Sscanf(v, "%d", &par)
+	}
+	if par < 1 {
+		par = 1
+	}
+	sem := make(chan struct{}, par)
+	done := make(chan int, len(cases))
+	for i := range cases {
+		sem <- struct{}{}
+		go func(i int) {
+			results[i] = runOneIsolated(component, cases[i], perCaseTimeout)
+			<-sem
+			done <- i
+		}(i)
+	}
+	for range cases {
+		<-done
+	}
+	for _, r := range results {
+		fmt.Fprint(x.w, r)
+	}
+}
+
+func runOneIsolated(component string, cur []string, perCaseTimeout time.Duration) string {
+	var w strings.Builder
+	cmd := exec.Command(os.Args[0], "execcase", component)
+	cmd.Stdin = strings.NewReader(strings.Join(cur, "\n") + "\n")
+	var so, se strings.Builder
+	cmd.Stdout, cmd.Stderr = &so, &se
+	cmd.Env = os.Environ()
+	done := make(chan error, 1)
+	if err := cmd.Start(); err != nil {
+		return fmt.Sprintf("%s\n", cur[0])
+	}
+	go func() { done <- cmd.Wait() }()
+	var err error
+	timedOut := false
+	select {
+	case err = <-done:
+	case <-time.After(perCaseTimeout):
+		_ = cmd.Process.Kill()
+		err = <-done
+		timedOut = true
+	}
+	lines := strings.Split(strings.TrimRight(so.String(), "\n"), "\n")
+	answered := 0
+	for _, l := range lines {
+		if l == "" {
+			continue
+		}
+		fmt.Fprintln(&w, l)
+		if strings.Contains(l, " => ") {
+			answered++
+		}
+	}
+	if err != nil || timedOut {
+		reason := "crash:exit"
+		if timedOut {
+			reason = "hang:watchdog"
+		} else {
+			for _, l := range strings.Split(se.String(), "\n") {
+				if strings.HasPrefix(l, "panic:") || strings.HasPrefix(l, "fatal error:") {
+					reason = "crash:" + strings.ReplaceAll(crashNorm.ReplaceAllString(l, "X"), " ", "_")
+					break
+				}
+			}
+			// which library function was on the crashing goroutine's stack
+			for _, l := range strings.Split(se.String(), "\n") {
+				if strings.Contains(l, "toolchest/") && strings.Contains(l, "(") && !strings.HasPrefix(l, "\t") {
+					fn := l[strings.LastIndex(l, "/")+1:]
+					if i := strings.LastIndex(fn, "("); i > 0 {
+						fn = fn[:i]
+					}
+					reason += "@" + fn
+					break
+				}
+			}
+		}
+		ops := 0
+		for _, l := range cur {
+			if strings.HasPrefix(l, "case ") {
+				continue
+			}
+			if ops >= answered {
+				fmt.Fprintf(&w, "%s => %s\n", l, reason)
+			}
+			ops++
+		}
+	}
+	return w.String()
 }
